@@ -322,4 +322,166 @@ def stepEv (H : Bytes → Bytes) (stored : Bytes → Bytes) (cs : Nat) (s : Sys)
 def run (H : Bytes → Bytes) (stored : Bytes → Bytes) (cs : Nat) (s : Sys) (evs : List Ev) : Sys :=
   evs.foldl (stepEv H stored cs) s
 
+/-! ## several contents per action id (`EvM`)
+
+The runner may store different contents under one action id (gob bytes of the fact map
+are not deterministic, a re-analysis after a lost entry may produce another encoding).
+`EvM.spawn` therefore carries the content.  In this event alphabet the index write
+(one `write(2)` of 175 bytes at offset 0, inside one page — observed in the strace tie
+on every run) is atomic with respect to the death of the writing process: `crash` on a
+process about to write the index entry writes nothing.  (The torn index write is kept in
+`Ev`/`stepEv`, where every writer of an id stores the same content.) -/
+
+inductive EvM where
+  | spawn (id data : Bytes) (ts : Nat)
+  | step (i : Nat)
+  | crash (i : Nat) (k : Nat)
+  | truncate (n : Name) (len : Nat)
+  | unlink (n : Name)
+
+def pcIsIdxWrite : PC → Bool
+  | .idxWrite => true
+  | _ => false
+
+def crashProcM (H : Bytes → Bytes) (cs : Nat) (s : Sys) (i : Nat) (k : Nat) : Sys :=
+  match s.procs[i]? with
+  | none => s
+  | some p => if pcIsIdxWrite p.pc then crashProc H cs s i 0 else crashProc H cs s i k
+
+def stepEvM (H : Bytes → Bytes) (cs : Nat) (s : Sys) : EvM → Sys
+  | .spawn id data ts =>
+    if wfId id && decide (ts < 2 ^ 63) && decide (data.length < 2 ^ 63) then
+      { s with procs := s.procs ++ [{ id := id, data := data, ts := ts, pc := .statD, orph := false }] }
+    else s
+  | .step i => stepProc H cs s i
+  | .crash i k => crashProcM H cs s i k
+  | .truncate n len =>
+    match s.fs n with
+    | none => s
+    | some f =>
+      if atRest H s n && decide (len ≤ f.length) then { s with fs := s.fs.set n (some (f.take len)) } else s
+  | .unlink n =>
+    { fs := unlink s.fs n,
+      procs := s.procs.map fun p => if p.holds H = some n then { p with orph := true } else p }
+
+def runM (H : Bytes → Bytes) (cs : Nat) (s : Sys) (evs : List EvM) : Sys :=
+  evs.foldl (stepEvM H cs) s
+
+/-- upper bound on the number of system calls of one `put` of `size` bytes (copy buffer ≥ 1) -/
+def putBound (size : Nat) : Nat := size + 7
+
+/-! ## `Trim`, `used` and modification times (`EvT`)
+
+`DiskCache.used(file)`: `Chtimes(file, now)` unless the mtime is less than an hour old.
+`DiskCache.Trim`: `now` is read once; `trimSubdir` stats every cache file and removes it
+if its mtime lies before `now - 5 days - 1 hour` — two system calls, so other processes
+run between the decision and the removal. -/
+
+def mtimeInterval : Nat := 3600
+def trimLimit : Nat := 432000
+
+structure Trimmer where
+  t0 : Nat                 -- `now` read at the start of `Trim`
+  pending : Option Name    -- the file it has decided (after `os.Stat`) to remove next
+
+structure TSys where
+  sys : Sys
+  mt : Name → Nat          -- modification time (seconds) of the files that exist
+  now : Nat
+  trimmers : List Trimmer
+
+inductive EvT where
+  | base (e : EvM)                 -- writer / fault event of the file protocol
+  | tick (dt : Nat)                -- the clock advances
+  | used (n : Name)                -- `c.used(file)` (in `get`, `OutputFile`)
+  | touch (n : Name) (t : Nat)     -- the environment sets an mtime (utime, restore)
+  | trimBegin                      -- a `Trim` passes the trim.txt check and reads `now`
+  | trimStat (j : Nat) (n : Name)  -- `trimSubdir`: `os.Stat(entry)` and the decision
+  | trimRemove (j : Nat)           -- `trimSubdir`: `os.Remove(entry)`
+
+/-- the file whose mtime a system call of a writer sets to `now` -/
+def opTouches (fs : FS) : Op → Option Name
+  | .open n t => if t || (fs n).isNone then some n else none
+  | .write n _ ch => if ch = [] then none else some n
+  | .ftrunc n _ => some n
+  | _ => none
+
+/-- names whose mtime the base event sets to the current time -/
+def evTouches (H : Bytes → Bytes) (cs : Nat) (s : Sys) : EvM → Option Name
+  | .step i =>
+    match s.procs[i]? with
+    | none => none
+    | some p => if p.orph then none else opTouches s.fs (nextOp H cs s.fs p).1
+  | .crash i _ =>
+    match s.procs[i]? with
+    | none => none
+    | some p =>
+      if p.orph || pcIsIdxWrite p.pc then none else
+      match (nextOp H cs s.fs p).1 with
+      | .write n _ ch => if ch = [] then none else some n
+      | _ => none
+  | .truncate n _ => some n
+  | _ => none
+
+def setMt (mt : Name → Nat) (n : Name) (t : Nat) : Name → Nat := fun m => if m = n then t else mt m
+
+def stepT (H : Bytes → Bytes) (cs : Nat) (s : TSys) : EvT → TSys
+  | .base e =>
+    let mt' := match evTouches H cs s.sys e with
+      | some n => setMt s.mt n s.now
+      | none => s.mt
+    { s with sys := stepEvM H cs s.sys e, mt := mt' }
+  | .tick dt => { s with now := s.now + dt }
+  | .used n =>
+    match s.sys.fs n with
+    | none => s
+    | some _ => if s.now - s.mt n < mtimeInterval then s else { s with mt := setMt s.mt n s.now }
+  | .touch n t => { s with mt := setMt s.mt n t }
+  | .trimBegin => { s with trimmers := s.trimmers ++ [{ t0 := s.now, pending := none }] }
+  | .trimStat j n =>
+    match s.trimmers[j]? with
+    | none => s
+    | some t =>
+      let old := (s.sys.fs n).isSome && decide (s.mt n + (trimLimit + mtimeInterval) < t.t0)
+      { s with trimmers := s.trimmers.set j { t with pending := if old then some n else none } }
+  | .trimRemove j =>
+    match s.trimmers[j]? with
+    | none => s
+    | some t =>
+      match t.pending with
+      | none => s
+      | some n =>
+        { s with sys := stepEvM H cs s.sys (.unlink n),
+                 trimmers := s.trimmers.set j { t with pending := none } }
+
+def runT (H : Bytes → Bytes) (cs : Nat) (s : TSys) (evs : List EvT) : TSys :=
+  evs.foldl (stepT H cs) s
+
+/-! ## a source that changes between the two passes of `Put` (contract violation)
+
+`Put` reads its source twice: once to compute the output id and size, once to copy.  If
+the second pass yields `data2` (same length), the copy writes `data2`; `copyFile` hashes
+what it copies and compares with the output id BEFORE writing the last byte; on a
+mismatch it truncates the file to 0 and `Put` fails (`dead`: no further system call). -/
+def nextOpF (H : Bytes → Bytes) (cs : Nat) (fs : FS) (p : Proc) (data2 : Bytes) : Op × PC :=
+  let out := H p.data
+  let size := p.data.length
+  match p.pc with
+  | .writeD off =>
+    let n := min cs (size - 1 - off)
+    (.write (.D out) off ((data2.drop off).take n),
+      if off + n ≥ size - 1 then .lastD else .writeD (off + n))
+  | .lastD =>
+    if H data2 = out then (.write (.D out) (size - 1) (data2.drop (size - 1)), .idxOpen)
+    else (.ftrunc (.D out) 0, .dead)
+  | _ => nextOp H cs fs p
+
+def soloStepF (H : Bytes → Bytes) (cs : Nat) (data2 : Bytes) (x : FS × Proc) : FS × Proc :=
+  ((applyOp x.1 x.2.orph (nextOpF H cs x.1 x.2 data2).1).1,
+   { x.2 with pc := (nextOpF H cs x.1 x.2 data2).2, orph := (applyOp x.1 x.2.orph (nextOpF H cs x.1 x.2 data2).1).2 })
+
+def soloRunF (H : Bytes → Bytes) (cs : Nat) (data2 : Bytes) : Nat → FS × Proc → FS × Proc
+  | 0, x => x
+  | n + 1, x => soloRunF H cs data2 n (soloStepF H cs data2 x)
+
 end Verif.C05
